@@ -162,6 +162,8 @@ type Eng struct {
 
 	// hostile-caller mode (C15): one key buffer and one value buffer are reused
 	// for every call and scribbled over after each return
+	Split bool // crash / sync traces: "call" and "ret" events around the I/O events of a call
+
 	Hostile  bool
 	kbuf     []byte
 	vbuf     []byte
@@ -276,17 +278,45 @@ func (e *Eng) BatchSmallID(id uint64) int {
 	return s
 }
 
+// begin logs the start of a call in split mode (crash / sync traces: the I/O
+// events of the call lie between its "call" and its "ret" event).
+func (e *Eng) begin(op string, k, v, n, a int) {
+	if e.Split {
+		e.T.Emit(Ev{"ev": "call", "op": op, "k": k, "v": v, "n": n, "a": a})
+	}
+}
+
 func (e *Eng) op(op string, k, v, n, a int, res int, err string) {
 	if err == "panic" || err == "stuck" {
 		e.Dead = true
 	}
 	e.txf("%s %d %d %s|", op, k, res, err)
-	e.T.Emit(Ev{"ev": "op", "op": op, "k": k, "v": v, "n": n, "a": a, "res": res, "err": err})
+	if e.Split {
+		e.T.Emit(Ev{"ev": "ret", "op": op, "k": k, "res": res, "err": err})
+	} else {
+		e.T.Emit(Ev{"ev": "op", "op": op, "k": k, "v": v, "n": n, "a": a, "res": res, "err": err})
+	}
 	e.scribble()
+}
+
+// run executes one engine call between its begin and end events.
+func (e *Eng) run(op string, k, v, n, a int, fn func() (int, error)) (int, string) {
+	e.begin(op, k, v, n, a)
+	res := 0
+	name := Guard(CallTimeout, func() error {
+		r, err := fn()
+		res = r
+		return err
+	})
+	e.op(op, k, v, n, a, res, name)
+	return res, name
 }
 
 func (e *Eng) Open(cfg Cfg) string {
 	e.Cfg = cfg
+	if e.Split {
+		e.T.Emit(Ev{"ev": "call", "op": "Open", "k": 0, "v": 0, "n": 0, "a": 0, "cfg": cfg.Ev()})
+	}
 	var db *kv.DB
 	name := Guard(CallTimeout, func() error {
 		var err error
@@ -297,7 +327,11 @@ func (e *Eng) Open(cfg Cfg) string {
 		e.DB = db
 	}
 	e.rescan = true
-	e.T.Emit(Ev{"ev": "op", "op": "Open", "k": 0, "v": 0, "n": 0, "a": 0, "res": 0, "err": name, "cfg": cfg.Ev()})
+	if e.Split {
+		e.T.Emit(Ev{"ev": "ret", "op": "Open", "k": 0, "res": 0, "err": name})
+	} else {
+		e.T.Emit(Ev{"ev": "op", "op": "Open", "k": 0, "v": 0, "n": 0, "a": 0, "res": 0, "err": name, "cfg": cfg.Ev()})
+	}
 	if name == "panic" || name == "stuck" {
 		e.Dead = true
 	}
@@ -305,8 +339,7 @@ func (e *Eng) Open(cfg Cfg) string {
 }
 
 func (e *Eng) Close() string {
-	name := Guard(CallTimeout, func() error { return e.DB.Close() })
-	e.op("Close", 0, 0, 0, 0, 0, name)
+	_, name := e.run("Close", 0, 0, 0, 0, func() (int, error) { return 0, e.DB.Close() })
 	if name == "ok" {
 		e.DB = nil
 	}
@@ -315,42 +348,35 @@ func (e *Eng) Close() string {
 
 func (e *Eng) Put(rank int, vid int) string {
 	key, val := e.args(rank, vid)
-	name := Guard(CallTimeout, func() error { return e.DB.Put(key, val) })
-	e.op("Put", rank, vid, len(val), 0, 0, name)
+	_, name := e.run("Put", rank, vid, len(val), 0, func() (int, error) { return 0, e.DB.Put(key, val) })
 	return name
 }
 
 func (e *Eng) Delete(rank int) string {
 	key, _ := e.args(rank, VNil)
-	name := Guard(CallTimeout, func() error { return e.DB.Delete(key) })
-	e.op("Delete", rank, 0, 0, 0, 0, name)
+	_, name := e.run("Delete", rank, 0, 0, 0, func() (int, error) { return 0, e.DB.Delete(key) })
 	return name
 }
 
 func (e *Eng) Get(rank int) (int, string) {
 	key, _ := e.args(rank, VNil)
-	res := VNil
-	name := Guard(CallTimeout, func() error {
+	return e.run("Get", rank, 0, 0, 0, func() (int, error) {
 		b, err := e.DB.Get(key)
-		if err == nil {
-			res = e.V.ID(b)
-			e.retain(b)
+		if err != nil {
+			return VNil, err
 		}
-		return err
+		e.retain(b)
+		return e.V.ID(b), nil
 	})
-	e.op("Get", rank, 0, 0, 0, res, name)
-	return res, name
 }
 
 func (e *Eng) Sync() string {
-	name := Guard(CallTimeout, func() error { return e.DB.Sync() })
-	e.op("Sync", 0, 0, 0, 0, 0, name)
+	_, name := e.run("Sync", 0, 0, 0, 0, func() (int, error) { return 0, e.DB.Sync() })
 	return name
 }
 
 func (e *Eng) Merge() string {
-	name := Guard(CallTimeout, func() error { return e.DB.Merge() })
-	e.op("Merge", 0, 0, 0, 0, 0, name)
+	_, name := e.run("Merge", 0, 0, 0, 0, func() (int, error) { return 0, e.DB.Merge() })
 	return name
 }
 
@@ -359,44 +385,37 @@ func (e *Eng) NewBatch(sync bool) {
 	if sync {
 		a = 1
 	}
-	name := Guard(CallTimeout, func() error {
+	e.run("NewBatch", 0, 0, 0, a, func() (int, error) {
 		e.Batch = e.DB.NewBatch(kv.BatchOptions{Sync: sync})
-		return nil
+		return 0, nil
 	})
-	e.op("NewBatch", 0, 0, 0, a, 0, name)
 }
 
 func (e *Eng) BPut(rank, vid int) string {
 	key, val := e.args(rank, vid)
-	name := Guard(CallTimeout, func() error { return e.Batch.Put(key, val) })
-	e.op("BPut", rank, vid, len(val), 0, 0, name)
+	_, name := e.run("BPut", rank, vid, len(val), 0, func() (int, error) { return 0, e.Batch.Put(key, val) })
 	return name
 }
 
 func (e *Eng) BDelete(rank int) string {
 	key, _ := e.args(rank, VNil)
-	name := Guard(CallTimeout, func() error { return e.Batch.Delete(key) })
-	e.op("BDelete", rank, 0, 0, 0, 0, name)
+	_, name := e.run("BDelete", rank, 0, 0, 0, func() (int, error) { return 0, e.Batch.Delete(key) })
 	return name
 }
 
 func (e *Eng) BGet(rank int) (int, string) {
 	key, _ := e.args(rank, VNil)
-	res := VNil
-	name := Guard(CallTimeout, func() error {
+	return e.run("BGet", rank, 0, 0, 0, func() (int, error) {
 		b, err := e.Batch.Get(key)
-		if err == nil {
-			res = e.V.ID(b)
+		if err != nil {
+			return VNil, err
 		}
-		return err
+		return e.V.ID(b), nil
 	})
-	e.op("BGet", rank, 0, 0, 0, res, name)
-	return res, name
 }
 
 func (e *Eng) Commit() string {
-	name := Guard(CallTimeout, func() error { return e.Batch.Commit() })
-	e.op("Commit", 0, 0, 0, 0, 0, name)
+	_, name := e.run("Commit", 0, 0, 0, 0, func() (int, error) { return 0, e.Batch.Commit() })
 	return name
 }
 
